@@ -132,7 +132,17 @@ func properBounds(g orb.Geometry) orb.Geometry {
 func closeSomeRings(r *h.Rand, g orb.Geometry) orb.Geometry {
 	cl := func(rg orb.Ring) orb.Ring {
 		if len(rg) >= 2 && r.Bool() {
-			return append(append(orb.Ring{}, rg...), rg[0])
+			last := rg[0]
+			if r.P(1, 4) {
+				// almost closed: the last vertex is a different point, a few 1e-13 (relative) or one ulp beside the first
+				k := r.Intn(2)
+				if r.Bool() {
+					last[k] = math.Nextafter(last[k], []float64{math.Inf(1), math.Inf(-1)}[r.Intn(2)])
+				} else {
+					last[k] += last[k] * []float64{3e-13, -3e-13, 1e-15}[r.Intn(3)]
+				}
+			}
+			return append(append(orb.Ring{}, rg...), last)
 		}
 		return rg
 	}
@@ -188,6 +198,20 @@ func c06variants(r *h.Rand, g orb.Geometry) []orb.Geometry {
 				ss[i](p)
 				out = append(out, cp)
 			}
+		}
+	}
+	// one coordinate of one vertex negated (180 <-> -180, 0 <-> -0, a <-> -a)
+	{
+		cp := refmodel.Copy(g)
+		var vs []orb.Point
+		refmodel.Walk(cp, func(p orb.Point) { vs = append(vs, p) }, nil)
+		if ss := setters(&cp); len(ss) > 0 && len(ss) == len(vs) {
+			i := r.Intn(len(ss))
+			p := vs[i]
+			k := r.Intn(2)
+			p[k] = -p[k]
+			ss[i](p)
+			out = append(out, cp)
 		}
 	}
 	// lengths: prefix view sharing memory, and a longer copy
